@@ -154,6 +154,7 @@ func c14Prepare(e *runner.Env, tier string) ([]runner.Job, error) {
 	}
 	// one Decoder / Encoder used for several types in sequence (incl. refused destinations): see props/c11handles.go
 	jobs = append(jobs, runner.Job{Harness: "c14.handles", Mode: "shim", Shards: 16, MaxRSS: 8192})
+	jobs = append(jobs, runner.Job{Harness: "c14.order", Mode: "shim", Shards: 4})
 	return jobs, nil
 }
 
